@@ -40,6 +40,32 @@ pub enum Cc {
     Le,
     G,
     Ge,
+    S,
+    Ns,
+    A,
+    Ae,
+    B,
+    Be,
+}
+
+#[derive(Clone, Copy, Debug, PartialEq)]
+pub enum Lop {
+    And,
+    Or,
+    Xor,
+}
+#[derive(Clone, Copy, Debug, PartialEq)]
+pub enum Uop {
+    Neg,
+    Not,
+    Inc,
+    Dec,
+}
+#[derive(Clone, Copy, Debug, PartialEq)]
+pub enum Sop {
+    Shl,
+    Shr,
+    Sar,
 }
 
 #[derive(Clone, Debug, PartialEq)]
@@ -50,6 +76,15 @@ pub enum Ins {
     Mov(Opnd, Opnd),
     Imul(u8, Opnd),
     Idiv(Opnd),
+    /// further integer instructions (not emitted by the pinned back end; accepted so that a change
+    /// that starts using them is judged by its behaviour): two-operand logic, test, one-operand
+    /// neg/not/inc/dec, shifts by an immediate or cl, xchg, nop
+    Logic(Lop, Opnd, Opnd),
+    Test(Opnd, Opnd),
+    Unary(Uop, Opnd),
+    Shift(Sop, Opnd, Opnd),
+    Xchg(Opnd, Opnd),
+    Nop,
     Cqo,
     JmpR(u8),
     Jmp(usize),
@@ -274,6 +309,90 @@ pub fn load(text: &str, code_base: u64) -> Result<Prog, LoadErr> {
                 Ins::Call(ops[0].to_string())
             }
             "ret" => Ins::Ret,
+            "nop" => Ins::Nop,
+            "and" | "or" | "xor" | "test" | "xchg" => {
+                if ops.len() != 2 {
+                    return Err(bad("operand count"));
+                }
+                let a = parse_opnd(ops[0], line)?;
+                let b = parse_opnd(ops[1], line)?;
+                match (&a, &b) {
+                    (Opnd::I(_), _) => return Err(noenc("immediate destination".into())),
+                    (Opnd::M(..), Opnd::M(..)) => return Err(noenc("two memory operands".into())),
+                    (Opnd::M(..), Opnd::I(i)) | (Opnd::R(_), Opnd::I(i)) => {
+                        if mn == "xchg" {
+                            return Err(noenc("xchg with an immediate".into()));
+                        }
+                        if matches!(a, Opnd::M(..)) && !qword {
+                            return Err(noenc("memory/immediate form needs a size".into()));
+                        }
+                        if !fits32(*i) {
+                            return Err(noenc(format!("immediate {i} does not fit the 32-bit immediate of this instruction form")));
+                        }
+                    }
+                    _ => {}
+                }
+                match mn {
+                    "and" => Ins::Logic(Lop::And, a, b),
+                    "or" => Ins::Logic(Lop::Or, a, b),
+                    "xor" => Ins::Logic(Lop::Xor, a, b),
+                    "test" => Ins::Test(a, b),
+                    _ => Ins::Xchg(a, b),
+                }
+            }
+            "neg" | "not" | "inc" | "dec" => {
+                if ops.len() != 1 {
+                    return Err(bad("operand count"));
+                }
+                let a = parse_opnd(ops[0], line)?;
+                match a {
+                    Opnd::R(_) => {}
+                    Opnd::M(..) if qword => {}
+                    _ => return Err(noenc("operand of a one-operand instruction".into())),
+                }
+                Ins::Unary(match mn { "neg" => Uop::Neg, "not" => Uop::Not, "inc" => Uop::Inc, _ => Uop::Dec }, a)
+            }
+            "shl" | "sal" | "shr" | "sar" => {
+                if ops.len() != 2 {
+                    return Err(bad("operand count"));
+                }
+                let a = parse_opnd(ops[0], line)?;
+                match a {
+                    Opnd::R(_) => {}
+                    Opnd::M(..) if qword => {}
+                    _ => return Err(noenc("shift destination".into())),
+                }
+                let b = if ops[1] == "cl" {
+                    Opnd::R(RCX)
+                } else {
+                    match parse_opnd(ops[1], line)? {
+                        Opnd::I(i) if (0..64).contains(&i) => Opnd::I(i),
+                        _ => return Err(noenc("shift count must be an immediate below 64 or cl".into())),
+                    }
+                };
+                Ins::Shift(match mn { "shr" => Sop::Shr, "sar" => Sop::Sar, _ => Sop::Shl }, a, b)
+            }
+            "jz" | "jnz" | "js" | "jns" | "ja" | "jnbe" | "jae" | "jnb" | "jnc" | "jb" | "jc" | "jnae" | "jbe" | "jna" | "jnge" | "jnl" | "jng" | "jnle" => {
+                if ops.len() != 1 {
+                    return Err(bad("operand count"));
+                }
+                let cc = match mn {
+                    "jz" => Cc::E,
+                    "jnz" => Cc::Ne,
+                    "js" => Cc::S,
+                    "jns" => Cc::Ns,
+                    "ja" | "jnbe" => Cc::A,
+                    "jae" | "jnb" | "jnc" => Cc::Ae,
+                    "jb" | "jc" | "jnae" => Cc::B,
+                    "jbe" | "jna" => Cc::Be,
+                    "jnge" => Cc::L,
+                    "jnl" => Cc::Ge,
+                    "jng" => Cc::Le,
+                    _ => Cc::G,
+                };
+                fixups.push((ins.len(), ops[0].to_string(), line));
+                Ins::Jcc(cc, usize::MAX)
+            }
             _ => return Err(bad("unknown mnemonic")),
         };
         ins.push(i);
@@ -324,6 +443,7 @@ struct Flags {
     zf: bool,
     sf: bool,
     of: bool,
+    cf: bool,
     u: u32,
 }
 
@@ -382,13 +502,13 @@ impl<'a> Machine<'a> {
     fn set_flags_sub(&mut self, a: V, b: V) {
         let (x, y) = (a.v as i64, b.v as i64);
         let (r, of) = x.overflowing_sub(y);
-        self.flags = Flags { zf: r == 0, sf: r < 0, of, u: if a.u != 0 { a.u } else { b.u } };
+        self.flags = Flags { zf: r == 0, sf: r < 0, of, cf: a.v < b.v, u: if a.u != 0 { a.u } else { b.u } };
     }
 
     fn set_flags_add(&mut self, a: V, b: V) {
         let (x, y) = (a.v as i64, b.v as i64);
         let (r, of) = x.overflowing_add(y);
-        self.flags = Flags { zf: r == 0, sf: r < 0, of, u: if a.u != 0 { a.u } else { b.u } };
+        self.flags = Flags { zf: r == 0, sf: r < 0, of, cf: a.v.checked_add(b.v).is_none(), u: if a.u != 0 { a.u } else { b.u } };
     }
 
     fn addr_to_index(&self, a: u64) -> Option<usize> {
@@ -507,6 +627,74 @@ impl<'a> Machine<'a> {
                     let o = self.c.origin(OriginKind::ArchUndefFlags, "flags after idiv".into());
                     self.flags.u = o;
                 }
+                Ins::Nop => {}
+                Ins::Logic(op, a, b) => {
+                    let x = self.rd(a)?;
+                    let y = self.rd(b)?;
+                    let r = match op {
+                        Lop::And => x.v & y.v,
+                        Lop::Or => x.v | y.v,
+                        Lop::Xor => x.v ^ y.v,
+                    };
+                    // `xor r, r` is the zeroing idiom: the result does not depend on the old value
+                    let v = if *op == Lop::Xor && a == b { V::d(0) } else { V::combine(r, x, y) };
+                    self.flags = Flags { zf: r == 0, sf: (r as i64) < 0, of: false, cf: false, u: v.u };
+                    self.wr(a, v)?;
+                }
+                Ins::Test(a, b) => {
+                    let x = self.rd(a)?;
+                    let y = self.rd(b)?;
+                    let r = x.v & y.v;
+                    self.flags = Flags { zf: r == 0, sf: (r as i64) < 0, of: false, cf: false, u: if x.u != 0 { x.u } else { y.u } };
+                }
+                Ins::Unary(op, a) => {
+                    let x = self.rd(a)?;
+                    match op {
+                        Uop::Not => self.wr(a, V { v: !x.v, u: x.u })?,
+                        Uop::Neg => {
+                            self.set_flags_sub(V::d(0), x);
+                            self.wr(a, V { v: x.v.wrapping_neg(), u: x.u })?;
+                        }
+                        Uop::Inc | Uop::Dec => {
+                            // CF is left as it was
+                            let cf = self.flags.cf;
+                            if *op == Uop::Inc { self.set_flags_add(x, V::d(1)) } else { self.set_flags_sub(x, V::d(1)) }
+                            self.flags.cf = cf;
+                            let r = if *op == Uop::Inc { x.v.wrapping_add(1) } else { x.v.wrapping_sub(1) };
+                            self.wr(a, V { v: r, u: x.u })?;
+                        }
+                    }
+                }
+                Ins::Shift(op, a, b) => {
+                    let x = self.rd(a)?;
+                    let cv = self.rd(b)?;
+                    let n = self.need(cv, "shift count")? & 63;
+                    if n != 0 {
+                        let r = match op {
+                            Sop::Shl => x.v << n,
+                            Sop::Shr => x.v >> n,
+                            Sop::Sar => ((x.v as i64) >> n) as u64,
+                        };
+                        let cf = match op {
+                            Sop::Shl => (x.v >> (64 - n)) & 1 == 1,
+                            _ => (x.v >> (n - 1)) & 1 == 1,
+                        };
+                        // OF is architecturally defined for single-bit shifts only
+                        let of = match op {
+                            Sop::Shl => ((r >> 63) & 1 == 1) != cf,
+                            Sop::Shr => (x.v >> 63) & 1 == 1,
+                            Sop::Sar => false,
+                        };
+                        self.flags = Flags { zf: r == 0, sf: (r as i64) < 0, of, cf, u: x.u };
+                        self.wr(a, V { v: r, u: x.u })?;
+                    }
+                }
+                Ins::Xchg(a, b) => {
+                    let x = self.rd(a)?;
+                    let y = self.rd(b)?;
+                    self.wr(a, y)?;
+                    self.wr(b, x)?;
+                }
                 Ins::Jmp(t) | Ins::JmpNear(t) => next = *t,
                 Ins::Jcc(cc, t) => {
                     if self.flags.u != 0 {
@@ -520,6 +708,12 @@ impl<'a> Machine<'a> {
                         Cc::Le => f.zf || f.sf != f.of,
                         Cc::G => !f.zf && f.sf == f.of,
                         Cc::Ge => f.sf == f.of,
+                        Cc::S => f.sf,
+                        Cc::Ns => !f.sf,
+                        Cc::A => !f.cf && !f.zf,
+                        Cc::Ae => !f.cf,
+                        Cc::B => f.cf,
+                        Cc::Be => f.cf || f.zf,
                     };
                     if take {
                         next = *t;
@@ -634,7 +828,7 @@ pub fn exec(p: &Prog, args: &[i64], plan: &EnvPlan, opts: &ExecOpts) -> (ExecOut
     // entry state per System V: rsp + 8 is 16-byte aligned, [rsp] holds the return address
     let entry_sp = (plan.stack_top & !0xf) - 8;
     let c = Core::new(plan, opts, entry_sp, 128, p.probe_names.len(), true);
-    let mut m = Machine { p, c, regs: [V::d(0); 16], flags: Flags { zf: false, sf: false, of: false, u: 0 }, entry_regs: [V::d(0); 16], pc: p.entry };
+    let mut m = Machine { p, c, regs: [V::d(0); 16], flags: Flags { zf: false, sf: false, of: false, cf: false, u: 0 }, entry_regs: [V::d(0); 16], pc: p.entry };
     if plan.e4_entry {
         for r in 0..16u8 {
             let kind = if CALLEE_SAVED.contains(&r) { OriginKind::EntryCalleeSaved } else { OriginKind::EntryScratch };
